@@ -53,6 +53,39 @@ def herm_measure(rec, cls, detail, A, lam_exp):
                                          and V2.shape == Vf.shape and np.array_equal(V2, Vf)))
 
 
+def inplace_history(rec, cls, detail, A, lam_exp):
+    """the narrow entry points called again after the caller updated the SAME array in place"""
+    L = lib()
+    n = A.shape[0]
+    if n < 2:
+        return
+    t = rec.new("quaternion_eigenvalues", cls + ":in-place-history", detail)
+    Aq = q_from_float(A)
+    L.eigen.quaternion_eigenvalues(Aq)
+    L.eigen.quaternion_eigenvectors(Aq)
+    Aq *= 2.0                                            # same object, doubled spectrum
+    w = np.sort(np.real(np.asarray(L.eigen.quaternion_eigenvalues(Aq))))
+    top = max(max(abs(float(x)) for x in lam_exp), 1e-300) * 2.0
+    rec.units(t, "SpectrumOfA", units(float(np.max(np.abs(w - 2.0 * np.sort(np.asarray(lam_exp, dtype=float))))), top, 4 * n * n))
+    Vf = q_to_float(np.asarray(L.eigen.quaternion_eigenvectors(Aq), dtype=np.quaternion))
+    D = np.zeros((n, n, 4))
+    wu = np.real(np.asarray(L.eigen.quaternion_eigenvalues(Aq)))
+    for i in range(n):
+        D[i, i, 0] = float(wu[i])
+    A2 = q_to_float(Aq)
+    rec.units(t, "AV_eq_VLambda", units(ofro(omul(A2, Vf) - omul(Vf, D)), max(ofro(A2), 1e-300), 4 * n * n))
+    Aq[0, n - 1] = Aq[0, n - 1] + np.quaternion(0.0, 0.3 * top, 0.0, 0.0)      # now non-Hermitian, same object
+    for fn in (L.eigen.quaternion_eigenvalues, L.eigen.quaternion_eigenvectors):
+        try:
+            import contextlib
+            import io
+            with contextlib.redirect_stdout(io.StringIO()):
+                fn(Aq)
+            rec.flag(t, "RejectsOutOfDomain", False)
+        except Exception:
+            rec.flag(t, "RejectsOutOfDomain", True)
+
+
 def _class_job(args):
     st, salt = args
     rec = S.Rec()
@@ -62,6 +95,8 @@ def _class_job(args):
     cls = "repeated-eigenvalue" if rep else "simple-spectrum"
     detail = {"lambda": lam, "U": names[0], "n": st["m"]}
     herm_measure(rec, cls, detail, A, lam)
+    if any(x != 0 for x in lam):
+        inplace_history(rec, cls, detail, A, lam)
     e = (-27, 27)[(st["m"] + len(str(lam))) % 2]
     herm_measure(rec, cls, dict(detail, scaled_by_pow2=e), A * 2.0 ** e, [v * 2.0 ** e for v in lam])
     return rec.events, rec.info
